@@ -402,4 +402,249 @@ def blockChi (ng : Nat) (items : List (Rat × Vec × Vec × Vec)) : Vec :=
   let den := items.foldl (fun acc it => acc + it.1 * f it) 0
   if den ≠ 0 then num.map (· / den) else vzero ng
 
+/-! ### merge sequences that go on after a rejected merge -/
+
+/-- `for o in libs: try: t.merge(o) except Exception: pass` — the outcome of every single merge and
+the final state of the target (a rejected merge leaves whatever it had already mutated). -/
+def mergeAll (t : Lib) : List Lib → List Bool × Lib
+  | [] => ([], t)
+  | o :: os =>
+    let r := Lib.merge t o
+    let s := mergeAll r.2 os
+    (r.1 :: s.1, s.2)
+
+/-! ### `computeMacroscopicGroupConstants(..., multLib=...)` -/
+
+def Entry.isMissing : Entry → Bool
+  | .missing _ => true
+  | .present _ _ _ => false
+
+/-- with a `multLib`: an item found in `lib` but not in `multLib` is left out (`skippedMultNuclides`,
+`continue`, debug message only); the `lib` lookup comes first, so an item absent from `lib` still counts
+as missing.  The flag says whether `multLib.getNuclide` found the nuclide. -/
+def dropMultMissing (es : List (Entry × Bool)) : List Entry :=
+  (es.filter (fun p => p.2 || p.1.isMissing)).map Prod.fst
+
+def macroXSMult (es : List (Entry × Bool)) : Option (Option Vec) := macroXS (dropMultMissing es)
+
+/-! ### `MacroscopicCrossSectionCreator.createMacrosFromMicros` as a whole -/
+
+/-- a Python dict with insertion order: `d[k] = v` -/
+def dictSet : List (Nat × Rat) → Nat → Rat → List (Nat × Rat)
+  | [], k, v => [(k, v)]
+  | (k', v') :: r, k, v => if k' = k then (k', v) :: r else (k', v') :: dictSet r k v
+
+/-- `d.get(k, dflt)` -/
+def dictGet : List (Nat × Rat) → Nat → Rat → Rat
+  | [], _, dflt => dflt
+  | (k', v') :: r, k, dflt => if k' = k then v' else dictGet r k dflt
+
+/-- `dict(filter(lambda x: x[1] > self.minimumNuclideDensity, zip(nucNames, densities)))` -/
+def mkDensities (minD : Rat) (items : List (Nat × Rat)) : List (Nat × Rat) :=
+  (items.filter (fun p => decide (p.2 > minD))).foldl (fun d p => dictSet d p.1 p.2) []
+
+/-- `sorted(numberDensities.items())`; nuclide names are interned by rank, so `≤` on ids is `str` order -/
+def insertItem (p : Nat × Rat) : List (Nat × Rat) → List (Nat × Rat)
+  | [] => [p]
+  | q :: qs => if p.1 ≤ q.1 then p :: q :: qs else q :: insertItem p qs
+
+def sortedItems (d : List (Nat × Rat)) : List (Nat × Rat) := d.foldr insertItem []
+
+/-- the microscopic data of one library nuclide of the block's XS ID as the creator reads it -/
+structure MNuc where
+  /-- nGamma, nalph, np, nd, nt, fission, n2n (`ABSORPTION_XS`), then total, transport; `none` = attribute None -/
+  vecs : List (Option Vec)
+  /-- neutronsPerFission -/
+  nu : Option Vec
+  el : Option Mat
+  inel : Option Mat
+  n2nS : Option Mat
+deriving Repr
+
+/-- `lib.getNuclide(name, suffix)` on the nuclides of the suffix (`none` = KeyError) -/
+def lookupNuc : List (Nat × MNuc) → Nat → Option MNuc
+  | [], _ => none
+  | (k', n) :: r, k => if k' = k then some n else lookupNuc r k
+
+def MNuc.vec (n : MNuc) (i : Nat) : Option Vec := (n.vecs.getD i none)
+
+/-- the items one `computeMacroscopicGroupConstants(reaction i, self.densities, lib, suffix)` call loops over -/
+def entriesOf (lib : List (Nat × MNuc)) (i : Nat) (withNu : Bool) (dens : List (Nat × Rat)) : List Entry :=
+  dens.map fun p =>
+    match lookupNuc lib p.1 with
+    | none => .missing p.2
+    | some n => .present p.2 (n.vec i)
+        (if withNu then (match n.nu with | some v => Mult.vec v | none => Mult.none) else Mult.one)
+
+/-- an array of `ng` entries, or the creator raises later (`zeros(ng) += None`, broadcast error) -/
+def needVec (ng : Nat) : Option (Option Vec) → Option Vec
+  | some (some v) => if v.length = ng then some v else none
+  | _ => none
+
+structure COut where
+  /-- nGamma, nalph, np, nd, nt, fission, n2n -/
+  basics : List Vec
+  nuSigF : Vec
+  total : Vec
+  transport : Vec
+  absorption : Vec
+  el : Mat
+  inel : Mat
+  n2nS : Mat
+  totalScatter : Mat
+  removal : Vec
+deriving Repr
+
+def allSome {β : Type} : List (Option β) → Option (List β)
+  | [] => some []
+  | none :: _ => none
+  | some x :: r => (allSome r).map (x :: ·)
+
+/-- `createMacrosFromMicros(lib, block, nucNames)` up to the removal cross section (diffusion constants and chi
+aside): `items` = `zip(nucNames, block.getNuclideNumberDensities(nucNames))`, `lib` = the library's nuclides of
+the block's XS ID in library order.  `none` = an exception. The order of `getAbsorptionXS` (nGamma, fission,
+nalph, np, nd, nt, n2n) only matters for rounding. -/
+def creator (ng : Nat) (minD : Rat) (buildScatter : Bool) (items : List (Nat × Rat)) (lib : List (Nat × MNuc)) :
+    Option COut :=
+  let densD := mkDensities minD items
+  let dens := sortedItems densD
+  match needVec ng (macroXS (entriesOf lib 5 true dens)),
+        allSome ((List.range 7).map (fun i => needVec ng (macroXS (entriesOf lib i false dens)))),
+        macroXS (entriesOf lib 7 false dens), macroXS (entriesOf lib 8 false dens) with
+  | some nuSigF, some basics, some (some total), some (some transport) =>
+    let absorp := absorption ng basics
+    let scat := fun (sel : MNuc → Option Mat) =>
+      if buildScatter then scatterMacro ng (lib.map (fun p => (dictGet densD p.1 0, sel p.2))) else mzero ng
+    let el := scat MNuc.el
+    let inel := scat MNuc.inel
+    let n2nS := scat MNuc.n2nS
+    let tot := totalScatter el inel n2nS
+    some ⟨basics, nuSigF, total, transport, absorp, el, inel, n2nS, tot, removal ng absorp (basics.getD 6 []) tot⟩
+  | _, _, _, _ => none
+
+/-! ### file-wide chi (`NuclideXSMetadata._getSkippedKeys`) -/
+
+/-- further reserved ids (the harness interns these strings / numbers to these ids) -/
+def keyFwChiFlag : Key := 2
+def keyFisFlag : Key := 3
+def keyChiFlag : Key := 4
+/-- the number 0 -/
+def valZero : Val := 1
+/-- the number 1 -/
+def valOne : Val := 2
+
+/-- `d[k] = v` on a metadata dict -/
+def Meta.set : Meta → Key → Val → Meta
+  | [], k, v => [(k, v)]
+  | (k', v') :: m, k, v => if k' = k then (k', v) :: m else (k', v') :: Meta.set m k v
+
+/-- `if (nuc.isotxsMetadata["fisFlag"] or 0) > 0: nuc.isotxsMetadata["chiFlag"] = 1`
+(modelled domain: fisFlag is absent, 0 or 1) -/
+def Nuc.chiRewrite (n : Nuc) : Nuc :=
+  if Meta.get n.iso keyFisFlag = some valOne then { n with iso := Meta.set n.iso keyChiFlag valOne } else n
+
+/-- `for nuc in selfContainer.nuclides + otherContainer.nuclides: ...` on one of the two libraries -/
+def Nucs.chiRewrite (ns : Nucs) : Nucs := ns.map (fun p => (p.1, p.2.chiRewrite))
+
+/-- the metadata merge gets as far as `_getSkippedKeys` (both sides non-empty) with a file-wide chi on a side -/
+def FileMeta.dropsChi (a b : FileMeta) : Bool :=
+  !(a.data.isEmpty || b.data.isEmpty) && ((Meta.get a.data keyChi).isSome || (Meta.get b.data keyChi).isSome)
+
+/-- `_Metadata.merge` as specialised by `NuclideXSMetadata`, file-wide chi included: when either side has one,
+`mergedData["fileWideChiFlag"] = 0`, `mergedData["chi"] = None` and `fileWideChiFlag` joins the skipped keys. -/
+def FileMeta.mergeChi (a b : FileMeta) : Option FileMeta :=
+  if a.data.isEmpty || b.data.isEmpty then
+    some ⟨Meta.update a.data b.data, a.files ++ b.files⟩
+  else
+    let drop := (Meta.get a.data keyChi).isSome || (Meta.get b.data keyChi).isSome
+    let skip := if drop then keyFwChiFlag :: libSkip else libSkip
+    if Meta.agree skip a.data b.data then
+      let ll := orVal (Meta.get a.data keyLibraryLabel) (Meta.get b.data keyLibraryLabel)
+      some ⟨(match ll with | some v => [(keyLibraryLabel, v)] | none => [])
+              ++ (if drop then [(keyFwChiFlag, valZero)] else [])
+              ++ a.data.filter (fun p => !skip.contains p.1), a.files ++ b.files⟩
+    else none
+
+/-- the chiFlag rewrite of one of the two libraries, performed iff this metadata merge drops a chi -/
+def condRewrite (c : Bool) (ns : Nucs) : Nucs := if c then ns.chiRewrite else ns
+
+/-- `_mergeNuclides`, then (only on success) the metadata assignment -/
+def Lib.finishMerge (t1 : Lib) (mi mp mg : FileMeta) (tn on : Nucs) : Bool × Lib :=
+  let rn := mergeNucs tn on
+  if rn.1 then (true, { t1 with nucs := rn.2, isoMeta := mi, pmMeta := mp, gamMeta := mg })
+  else (false, { t1 with nucs := rn.2 })
+
+/-- third metadata merge (GAMISO) -/
+def Lib.mergeChi3 (t1 o : Lib) (mi mp : FileMeta) (tn on : Nucs) : Bool × Lib :=
+  let d := FileMeta.dropsChi t1.gamMeta o.gamMeta
+  match FileMeta.mergeChi t1.gamMeta o.gamMeta with
+  | none => (false, { t1 with nucs := condRewrite d tn })
+  | some mg => Lib.finishMerge t1 mi mp mg (condRewrite d tn) (condRewrite d on)
+
+/-- second metadata merge (PMATRX) -/
+def Lib.mergeChi2 (t1 o : Lib) (mi : FileMeta) (tn on : Nucs) : Bool × Lib :=
+  let d := FileMeta.dropsChi t1.pmMeta o.pmMeta
+  match FileMeta.mergeChi t1.pmMeta o.pmMeta with
+  | none => (false, { t1 with nucs := condRewrite d tn })
+  | some mp => Lib.mergeChi3 t1 o mi mp (condRewrite d tn) (condRewrite d on)
+
+/-- first metadata merge (ISOTXS); `t1` = the target after `_mergeProperties` -/
+def Lib.mergeChi1 (t1 o : Lib) : Bool × Lib :=
+  let d := FileMeta.dropsChi t1.isoMeta o.isoMeta
+  match FileMeta.mergeChi t1.isoMeta o.isoMeta with
+  | none => (false, { t1 with nucs := condRewrite d t1.nucs })
+  | some mi => Lib.mergeChi2 t1 o mi (condRewrite d t1.nucs) (condRewrite d o.nucs)
+
+/-- `IsotxsLibrary.merge` with the file-wide-chi side effect: each of the three metadata merges that drops a chi first
+rewrites the chiFlag of every fissile nuclide of BOTH libraries (`_getSkippedKeys`), then compares (and may raise);
+the nuclides are merged afterwards. -/
+def Lib.mergeChi (t o : Lib) : Bool × Lib :=
+  let r := Lib.mergeProperties t o
+  if !r.1 then (false, r.2) else Lib.mergeChi1 r.2 o
+
+/-- `mergeAll` with file-wide chi -/
+def mergeAllChi (t : Lib) : List Lib → List Bool × Lib
+  | [] => ([], t)
+  | o :: os =>
+    let r := Lib.mergeChi t o
+    let s := mergeAllChi r.2 os
+    (r.1 :: s.1, s.2)
+
+/-- domain of the chi rewrite: every fisFlag is absent, 0 or 1 -/
+def Lib.fisDomain (l : Lib) : Bool :=
+  l.nucs.all (fun p => match Meta.get p.2.iso keyFisFlag with
+    | none => true
+    | some v => v = valZero || v = valOne)
+
+/-! ### the domain of the merge theorems as an executable check -/
+
+/-- non-empty library metadata hold at least one ordinary key (not only chi / libraryLabel) -/
+def FileMeta.goodB (a : FileMeta) : Bool := a.data.isEmpty || a.data.any (fun p => !libSkip.contains p.1)
+
+/-- `Lib.WF` of Props/C10.lean, decidable: metadata good, labels unique, five production attributes per nuclide -/
+def Lib.WFB (l : Lib) : Bool :=
+  l.isoMeta.goodB && l.pmMeta.goodB && l.gamMeta.goodB && decide ((l.nucs.map Prod.fst).Nodup) &&
+    l.nucs.all (fun p => p.2.attrs.length == 5)
+
+/-! ### the merge with rollback (notes/candidate-fixes-C10/atomic-merge-rollback.diff) -/
+
+/-- `IsotxsLibrary.merge` with `_rememberStateForRollback`: on any exception the target is restored before the
+exception is passed on -/
+def Lib.mergeAtomic (t o : Lib) : Bool × Lib :=
+  let r := Lib.mergeChi t o
+  if r.1 then r else (false, t)
+
+def mergeAllAtomic (t : Lib) : List Lib → List Bool × Lib
+  | [] => ([], t)
+  | o :: os =>
+    let r := Lib.mergeAtomic t o
+    let s := mergeAllAtomic r.2 os
+    (r.1 :: s.1, s.2)
+
+def mergeSeqAtomic (t : Lib) : List Lib → Nat × Bool × Lib
+  | [] => (0, true, t)
+  | o :: os =>
+    let r := Lib.mergeAtomic t o
+    if r.1 then let s := mergeSeqAtomic r.2 os; (s.1 + 1, s.2) else (0, false, r.2)
+
 end ArmiVerif.XsLib
